@@ -111,11 +111,9 @@ func genSinitTPM(c *gal.Ctx) {
 			c.OracleOK()
 		case got.Panic || got.E2:
 			c.OracleFail(idx, fmt.Sprintf("SINITACMcomplyTPMSpec: unexpected %+v", got), siteSinit, d)
-		case !second && spec && !got.OK:
-			c.OracleFailKnown(idx, "C05-sinitACM-double-parse", "SINITACMcomplyTPMSpec rejects a SINIT ACM that supports the TPM in use: sinitACM parses the region twice and returns the second result", "pkg/test/memory.go:sinitACM", d)
-		case second && caps1 != caps2:
-			c.OracleFailKnown(idx, "C05-sinitACM-double-parse", "SINITACMcomplyTPMSpec judges the module that follows the SINIT ACM instead of the SINIT ACM", "pkg/test/memory.go:sinitACM", d)
-		case second && got.OK == (present && fam != 0 && caps2 != 0):
+		case spec && !got.OK:
+			c.OracleFail(idx, fmt.Sprintf("SINITACMcomplyTPMSpec rejects a SINIT ACM that lists the family of the TPM in use (the module at the start of the SINIT region decides, not what follows it): %+v", got), "pkg/test/memory.go:sinitACM", d)
+		case !spec && got.OK && present && fam != 0 && caps1 != 0:
 			c.OracleFailKnown(idx, "C05-SINITTPMSpec-precedence", "SINITACMcomplyTPMSpec accepts every non-zero capabilities word and rejects 0 only ((1 >> caps & x) parses as (1 >> caps) & x)", siteSinit, d)
 		default:
 			c.OracleFail(idx, fmt.Sprintf("SINITACMcomplyTPMSpec: ACM lists the TPM family in use = %v, got %+v", spec, got), siteSinit, d)
